@@ -15,6 +15,15 @@ from vcheck import build, catalog, gen, obs, opcheck, refmodel as R
 from vcheck.catalog import OPS
 from vcheck.opcheck import CART, CallRaised
 
+SHRINK = False
+
+
+def reduce_candidates(cell, bundle):
+    if len(bundle) > 1:
+        for sub in bundle:
+            yield [sub]
+
+
 PID = "C02"
 RULE = (
     "Cells = every catalogued operation (accessors, momentum accessors, unary/scalar-argument/binary methods, all 12 Euler "
